@@ -197,7 +197,7 @@ pub fn child(line: &str) -> String {
                         .unwrap_or(("panic".to_string(), "?".to_string()))
                 };
                 let l = log.lock().unwrap();
-                let emitted: Vec<String> = l[before_log..].iter().map(|s| hex0(s.as_bytes())).collect();
+                let emitted: Vec<String> = l[before_log..].iter().map(|s| crate::wire::show_entry(s)).collect();
                 let h = handled.lock().unwrap();
                 let hd: Vec<String> = h[before_h..].to_vec();
                 out.push(format!(
